@@ -49,17 +49,17 @@ pub fn spec(id: &str) -> Option<PropSpec> {
         quarantine_note: "",
     };
     Some(match id {
-        "C02" => t("C02", 2, 10000, 200000, &["twin 0 receives every CREATE/DROP INDEX of the history, twin 1 none; a statement rejected by twin 0 (e.g. by a UNIQUE index) is not applied to twin 1, so both stay in the same state", "probes cover a generated SQL subset (single table with all comparison operators/BETWEEN/IN/AND/OR, ORDER BY/LIMIT, DISTINCT, aggregates, GROUP BY, 2-table joins, IN/EXISTS/NOT IN/NOT EXISTS/scalar subqueries, set operations, derived tables)"]),
-        "C18" => t("C18", 18, 8000, 150000, &["the restarted twin is saved to a real file under /dev/shm, dropped, and re-created with load_*; the twin that never restarts is the reference", "column types limited to INTEGER and VARCHAR in this scenario (the full persisted type set is exercised by the 'types' sub-scenario)"]),
-        "C19" => t("C19", 19, 8000, 150000, &["oracle restricted to what the statement promises: tables, columns (name, type) and exactly the same rows", "after a reload the history continues on both twins; a reloaded twin that accepts/rejects differently (constraints are not promised) ends the run without alarm"]),
-        "C09" => s("C09", 9, 20000, 400000, "exploration", &["the set of affected rows and the new row images are taken from the SUT's own SELECT on the pre-state (the property is agreement between the DML and the query reading of the predicate)", "values compared after numeric normalisation (integer variants and integral floats by value)"], ""),
-        "C10" => s("C10", 10, 20000, 400000, "exploration", &["declared constraints are tracked from the CREATE TABLE / CREATE UNIQUE INDEX statements the SUT accepted", "CHECK constraints are restricted to integer comparisons the harness evaluates itself"], ""),
-        "C11" => s("C11", 11, 15000, 300000, "fault_enumeration", &["observable state = per-table schema + row multiset, catalog listings (tables, indexes, views, triggers) and index-driven reads on every table that has a user index"], ""),
-        "C12" => s("C12", 12, 15000, 300000, "exploration", &["single-column foreign keys onto INTEGER primary keys; parent/child chains up to 3 tables, optional self-reference", "reference model of ON DELETE / ON UPDATE actions is applied to the rows the SUT's own SELECT reports as affected; the model abstains (counted as c12.unmodelled.*) on self-referencing restrict and on key updates of self-referencing tables", "one-sided: an accepted statement must leave the model's post-state and no orphan; a refused statement is not second-guessed"], ""),
-        "C13" => s("C13", 13, 15000, 300000, "exploration", &["observable state = per-table schema + row multiset, catalog listings and index-driven reads on every index; the snapshot before BEGIN is compared with the one after ROLLBACK", "transactions are not nested; savepoints are exercised under C14"], ""),
-        "C14" => s("C14", 14, 15000, 300000, "exploration", &["reference model = stack of (savepoint name, table contents read from the SUT when the savepoint was created)", "savepoint names are unique among live savepoints; a destroyed name may be reused", "histories bounded by the swarm step count (<= 48)"], ""),
-        "C15" => s("C15", 15, 10000, 200000, "exploration", &["'rebuild from scratch' for a user index = DROP INDEX + the same CREATE INDEX on a clone of the database", "row positions inside one key compared as sets"], ""),
-        "C24" => s("C24", 24, 20000, 400000, "exploration", &["decided in its stateful reading only: statements reachable by the workload generator against states reached by histories", "harness profile has overflow checks on, so unchecked integer arithmetic panics instead of wrapping"], ""),
+        "C02" => t("C02", 2, 20000, 400000, &["twin 0 receives every CREATE/DROP INDEX of the history, twin 1 none; a statement rejected by twin 0 (e.g. by a UNIQUE index) is not applied to twin 1, so both stay in the same state", "probes cover a generated SQL subset (single table with all comparison operators/BETWEEN/IN/AND/OR, ORDER BY/LIMIT, DISTINCT, aggregates, GROUP BY, 2-table joins, IN/EXISTS/NOT IN/NOT EXISTS/scalar subqueries, set operations, derived tables)"]),
+        "C18" => t("C18", 18, 12000, 200000, &["the restarted twin is saved to a real file under /dev/shm, dropped, and re-created with load_*; the twin that never restarts is the reference", "column types limited to INTEGER and VARCHAR in this scenario (the full persisted type set is exercised by the 'types' sub-scenario)"]),
+        "C19" => t("C19", 19, 12000, 200000, &["oracle restricted to what the statement promises: tables, columns (name, type) and exactly the same rows", "after a reload the history continues on both twins; a reloaded twin that accepts/rejects differently (constraints are not promised) ends the run without alarm"]),
+        "C09" => s("C09", 9, 30000, 500000, "exploration", &["the set of affected rows and the new row images are taken from the SUT's own SELECT on the pre-state (the property is agreement between the DML and the query reading of the predicate)", "values compared after numeric normalisation (integer variants and integral floats by value)"], ""),
+        "C10" => s("C10", 10, 40000, 600000, "exploration", &["declared constraints are tracked from the CREATE TABLE / CREATE UNIQUE INDEX statements the SUT accepted", "CHECK constraints are restricted to integer comparisons the harness evaluates itself"], ""),
+        "C11" => s("C11", 11, 15000, 250000, "fault_enumeration", &["observable state = per-table schema + row multiset, catalog listings (tables, indexes, views, triggers) and index-driven reads on every table that has a user index"], ""),
+        "C12" => s("C12", 12, 30000, 500000, "exploration", &["single-column foreign keys onto INTEGER primary keys; parent/child chains up to 3 tables, optional self-reference", "reference model of ON DELETE / ON UPDATE actions is applied to the rows the SUT's own SELECT reports as affected; the model abstains (counted as c12.unmodelled.*) on self-referencing restrict and on key updates of self-referencing tables", "one-sided: an accepted statement must leave the model's post-state and no orphan; a refused statement is not second-guessed"], ""),
+        "C13" => s("C13", 13, 25000, 400000, "exploration", &["observable state = per-table schema + row multiset, catalog listings and index-driven reads on every index; the snapshot before BEGIN is compared with the one after ROLLBACK", "transactions are not nested; savepoints are exercised under C14"], ""),
+        "C14" => s("C14", 14, 40000, 600000, "exploration", &["reference model = stack of (savepoint name, table contents read from the SUT when the savepoint was created)", "savepoint names are unique among live savepoints; a destroyed name may be reused", "histories bounded by the swarm step count (<= 48)"], ""),
+        "C15" => s("C15", 15, 40000, 500000, "exploration", &["'rebuild from scratch' for a user index = DROP INDEX + the same CREATE INDEX on a clone of the database", "row positions inside one key compared as sets"], ""),
+        "C24" => s("C24", 24, 50000, 800000, "exploration", &["decided in its stateful reading only: statements reachable by the workload generator against states reached by histories", "harness profile has overflow checks on, so unchecked integer arithmetic panics instead of wrapping"], ""),
         _ => return None,
     })
 }
@@ -115,6 +115,9 @@ fn tweak_for(prop: &str) -> impl Fn(&mut Swarm) {
             sw.extreme_ints = true;
         }
         "C02" => {
+            if sw.guard("c02_no_ints_beyond_2_53") {
+                sw.extreme_ints = false;
+            }
             sw.with_indexes = true;
             sw.w_index = 4;
             sw.with_tx = false;
